@@ -256,3 +256,43 @@ Print Assumptions C01_lz_compressor_model_lossless.
 Theorem C01_built_tables_are_well_formed : forall log counts t, build_dtable log counts = Ok t -> table_wf t /\ ft_log t = log.
 Proof. exact build_dtable_wf. Qed.
 Print Assumptions C01_built_tables_are_well_formed.
+
+(* ---- valid parses round-trip: validity stated ON THE BYTES of the source (coq/Codec/LzParse.v: every match repeats the bytes
+        found at its offset, offsets resolve through the repeat-offset rule), any cut of the source into raw / RLE / parsed
+        blocks, any dictionary content in front; the only other hypothesis is that the number-level checks of the format pass
+        (pblocks_run = Some: window rule, length ranges, block sizes).  This is the statement "decompress(compress(x)) = x" for
+        a compressor whose match finder is ANY procedure returning valid parses ---- *)
+From ZV.Codec Require Import LzParse LzParseProofs.
+
+Theorem C01_valid_parses_round_trip : forall cfg d p dictID x sbs ebs z rest,
+  let full := dict_content d ++ x in
+  let win := frame_window p (lenN x) in
+  let blockMax := N.min (N.min win BLOCK_MAX) (c_block_max cfg) in
+  sbs <> [] ->
+  sblocks_ok full (lenN (dict_content d)) (e_rep (dict_entropy d)) sbs ->
+  pblocks_run (c_strict_window cfg) win blockMax (z_init d) (to_pblocks full (lenN (dict_content d)) sbs) = Some (ebs, z) ->
+  params_ok p (lenN x) dictID -> c_magicless cfg = fp_magicless p -> win <= c_window_max cfg -> dict_ok d p dictID ->
+  exists t, decode_frame cfg d (enc_frame p dictID ebs ++ rest) = Ok (x, t, rest).
+Proof. exact valid_parses_round_trip. Qed.
+Print Assumptions C01_valid_parses_round_trip.
+
+(* non-vacuity: "abcabcabcabc" as one parsed block (3 literals + a 9-byte overlapping match at offset 3) meets sblocks_ok and the
+   number-level checks *)
+Example C01_valid_parse_example :
+  let x := [97; 98; 99; 97; 98; 99; 97; 98; 99; 97; 98; 99] in
+  let sbs := [SLz 12 [{| s_ll := 3; s_ml := 9; s_off := 3; s_ofv := 6 |}]] in
+  sblocks_ok x 0 (1, 4, 8) sbs /\
+  (exists ebs z, pblocks_run true 12 12 {| z_hist := []; z_rep := (1, 4, 8); z_pos := 0 |} (to_pblocks x 0 sbs) = Some (ebs, z)).
+Proof.
+  cbv zeta. split.
+  - cbn [sblocks_ok sb_size]. split; [vm_compute; discriminate|]. split; [discriminate|].
+    exists 12, (3, 1, 4). split; [|split; [vm_compute; discriminate|reflexivity]].
+    cbn [parse_ok]. exists (3, 1, 4). split; [reflexivity|]. split; [|split; reflexivity].
+    unfold match_ok. cbn [s_ml s_ll s_off]. split; [vm_compute; discriminate|]. split; [vm_compute; discriminate|]. split; [vm_compute; discriminate|].
+    cbn [s_ml s_ll s_off]. intros i Hi. assert (Hc : i = 0 \/ i = 1 \/ i = 2 \/ i = 3 \/ i = 4 \/ i = 5 \/ i = 6 \/ i = 7 \/ i = 8) by lia.
+    destruct Hc as [->|[->|[->|[->|[->|[->|[->|[->| ->]]]]]]]]; reflexivity.
+  - assert (H : match pblocks_run true 12 12 {| z_hist := []; z_rep := (1, 4, 8); z_pos := 0 |}
+                        (to_pblocks [97; 98; 99; 97; 98; 99; 97; 98; 99; 97; 98; 99] 0 [SLz 12 [{| s_ll := 3; s_ml := 9; s_off := 3; s_ofv := 6 |}]])
+                with Some _ => true | None => false end = true) by (timeout 60 vm_compute; reflexivity).
+    destruct (pblocks_run _ _ _ _ _) as [[ebs z]|]; [eauto|discriminate].
+Qed.
